@@ -86,6 +86,11 @@ def transitive_callees(body, crates, direction, depth=0, seen=None):
     if body is None or body.id in seen or depth > 6:
         return out
     seen.add(body.id)
+    # closures written inside the body are part of it (`.map(|(b, rest)| (u16::from_be_bytes(..), rest))`)
+    for c in crates:
+        for cb in c.bodies.values():
+            if cb.raw.get("parent") == body.id:
+                out |= transitive_callees(cb, crates, direction, depth + 1, seen)
     for _, t in body.calls():
         out.add(callee_res(t))
         f = t.get("f") or {}
